@@ -901,9 +901,15 @@ vbi_xds_demux_feed		(vbi_xds_demux *	xd,
 
 		i = xds_subclass;
 
-		/* MISC subclass 0x4n */
-		if (i >= 0x40)
-			i += 0x10 - 0x40;
+		/* MISC subclass 0x4n is stored at 0x1n. Other subclasses
+		   >= 0x10 of this class, and subclasses >= 0x40 of other
+		   classes, must not share these buffers. */
+		if (VBI_XDS_CLASS_MISC == xds_class) {
+			if (i >= 0x40)
+				i += 0x10 - 0x40;
+			else if (i >= 0x10)
+				i = N_ELEMENTS (xd->subpacket[0]);
+		}
 
 		if (xds_class > VBI_XDS_CLASS_MISC
 		    || i >= N_ELEMENTS (xd->subpacket[0])) {
